@@ -317,6 +317,7 @@ Definition ufit (r : req) (t : tree) : bool :=
   | RExpr _ | RPattern _ | RExprEmb _ => true
   | RParenthesized _ _ => is_kind KParenthesized t
   | RMarkup _ _ => is_kind KMarkup t
+  | RMath _ => is_kind KMath t
   | RContentBlock _ => is_kind KContentBlock t
   | RNamed _ => is_kind KNamed t
   | RKeyed _ => is_kind KKeyed t
@@ -328,12 +329,12 @@ Definition ufit (r : req) (t : tree) : bool :=
   | _ => false
   end.
 
-(* kinds whose converter is NOT covered: raw elements, references, headings, list/enum/term items, the math constructs
-   and code blocks; a paragraph break and a comment are not calm either *)
+(* kinds whose converter is NOT covered: raw elements, references, headings, list/enum/term items and code blocks; a
+   paragraph break and a comment are not calm either *)
 Definition okind (k : kind) : bool :=
   match k with
   | KParbreak | KLineComment | KBlockComment | KRaw | KRef | KHeading | KListItem | KEnumItem
-  | KTermItem | KEquation | KMath | KMathDelimited | KMathAttach | KMathRoot | KMathPrimes | KMathFrac | KCode | KCodeBlock => false
+  | KTermItem | KCode | KCodeBlock => false
   | _ => true
   end.
 (* the callee of a call is `table` or `grid` (their argument lists have layouts of their own) *)
@@ -910,6 +911,116 @@ Section Hereditary.
       intros d Hd. apply post_ret. apply unb_enclose; try apply unb_text. exact Hd.
     Qed.
 
+    (* --- math (breaks are suppressed below every Math node) --- *)
+    Lemma math_unb c : post (convert_math swidth t kids c) unb.
+    Proof.
+      unfold convert_math. apply post_bump_then. apply check_disabled_unb.
+      apply (post_bind _ _ (fun st : doc * bool => unbreakable (fst st) = true)).
+      - apply post_foldM; [reflexivity|]. intros [d ah] node Hin Hd. cbn [fst] in Hd.
+        destruct (is_expr (bt node)).
+        { apply (post_bind _ _ unb); [apply kid_call; [exact Hin|reflexivity|destruct ah; reflexivity]|].
+          intros x Hx. apply post_ret. cbn [fst]. apply unb_append; assumption. }
+        destruct (kind_eqb (bk node) KSpace) eqn:Ek.
+        { apply post_ret. cbn [fst]. apply unb_append; [exact Hd|]. unfold convert_space_text. rewrite (space_nolb node Hin Ek). reflexivity. }
+        destruct (kind_eqb (bk node) KHash); apply post_ret; cbn [fst]; (apply unb_append; [exact Hd|]); [apply unb_text|apply trivia_unb].
+      - intros [d ah] Hd. apply post_ret. exact Hd.
+    Qed.
+    Lemma attach_unb c : c_supp c = true -> post (convert_math_attach_like swidth kids c) unb.
+    Proof.
+      intros Hs. unfold convert_math_attach_like. apply flow_like_unb; [apply kids_nc|]. intros c' n Hc Hin.
+      destruct (is_expr (bt n)).
+      { eapply post_bind; [apply kid_call; [exact Hin|unfold math_operand_req; destruct (is_code_mode _); reflexivity|
+                                              unfold math_operand_req; destruct (is_code_mode _); cbn [req_ctx]; rewrite Hc; exact Hs]|].
+        intros d Hd. apply post_ret. exact Hd. }
+      destruct (kind_eqb (bk n) KSpace); apply post_ret; [exact I|apply trivia_unb].
+    Qed.
+    Lemma frac_unb c : c_supp c = true -> post (convert_math_frac swidth kids c) unb.
+    Proof.
+      intros Hs. unfold convert_math_frac. apply flow_like_unb; [apply kids_nc|]. intros c' n Hc Hin.
+      destruct (is_expr (bt n)).
+      { eapply post_bind; [apply kid_call; [exact Hin|unfold math_operand_req; destruct (is_code_mode _); reflexivity|
+                                              unfold math_operand_req; destruct (is_code_mode _); cbn [req_ctx]; rewrite Hc; exact Hs]|].
+        intros d Hd. apply post_ret. exact Hd. }
+      destruct (kind_eqb (bk n) KSemicolon); [apply post_ret; apply trivia_unb|].
+      destruct (negb (kind_eqb (bk n) KSpace)); apply post_ret; [apply trivia_unb|exact I].
+    Qed.
+    Lemma In_removelast' {A} (l : list A) x : In x (removelast l) -> In x l.
+    Proof.
+      induction l as [|y l IH]; cbn; [auto|]. destruct l as [|z l']; [intros []|]. intros [->|H]; [left; reflexivity|right; apply IH; exact H].
+    Qed.
+    Lemma In_split_last {A} (l r : list A) lastx x : split_last l = Some (r, lastx) -> In x r -> In x l.
+    Proof.
+      unfold split_last. destruct (rev l) as [|y rl] eqn:E; [discriminate|]. intros H Hin. inversion H; subst.
+      apply in_rev in Hin. apply in_rev. rewrite E. right. exact Hin.
+    Qed.
+    Lemma In_split_last_x {A} (l r : list A) lastx : split_last l = Some (r, lastx) -> In lastx l.
+    Proof.
+      unfold split_last. destruct (rev l) as [|y rl] eqn:E; [discriminate|]. intros H. inversion H; subst.
+      apply in_rev. rewrite E. left. reflexivity.
+    Qed.
+    Lemma delimited_unb c : c_supp c = true -> post (convert_math_delimited swidth cfg kids c) unb.
+    Proof.
+      intros Hs. unfold convert_math_delimited. destruct kids as [|k0 rest] eqn:Ekids; [apply post_panic|].
+      destruct rest as [|k1 rest']; [apply post_panic|]. rewrite <- Ekids in *.
+      set (inner0 := removelast (k1 :: rest')).
+      assert (H0 : forall x, In x inner0 -> In x kids).
+      { intros x Hx. apply In_removelast' in Hx. rewrite Ekids. right. exact Hx. }
+      assert (Hos : exists os inner1, (match inner0 with
+                                       | first :: r => if kind_eqb (bk first) KSpace then (convert_space_text (tx first), r) else (DNil, inner0)
+                                       | [] => (DNil, inner0) end) = (os, inner1) /\ unbreakable os = true /\ forall x, In x inner1 -> In x kids).
+      { destruct inner0 as [|f r] eqn:Ei; [exists DNil, []; repeat split; auto; intros x []|].
+        destruct (kind_eqb (bk f) KSpace) eqn:Ek.
+        - exists (convert_space_text (tx f)), r. repeat split.
+          + unfold convert_space_text. rewrite (space_nolb f (H0 f (or_introl eq_refl)) Ek). reflexivity.
+          + intros x Hx. apply H0. right. exact Hx.
+        - exists DNil, (f :: r). repeat split; auto. }
+      destruct Hos as (os & inner1 & -> & Hos & H1).
+      assert (Hcs : exists cs inner2, (match split_last inner1 with
+                                       | Some (r, lastx) => if kind_eqb (bk lastx) KSpace then (convert_space_text (tx lastx), r) else (DNil, inner1)
+                                       | None => (DNil, inner1) end) = (cs, inner2) /\ unbreakable cs = true /\ forall x, In x inner2 -> In x kids).
+      { destruct (split_last inner1) as [[r lastx]|] eqn:Esl; [|exists DNil, inner1; repeat split; auto].
+        destruct (kind_eqb (bk lastx) KSpace) eqn:Ek.
+        - exists (convert_space_text (tx lastx)), r. repeat split.
+          + unfold convert_space_text. rewrite (space_nolb lastx (H1 _ (In_split_last_x _ _ _ Esl)) Ek). reflexivity.
+          + intros x Hx. apply H1. apply (In_split_last _ _ _ _ Esl Hx).
+        - exists DNil, inner1. repeat split; auto. }
+      destruct Hcs as (cs & inner2 & -> & Hcs & H2).
+      apply (post_bind _ _ unb).
+      - apply flow_like_unb.
+        + apply Forall_forall. intros n Hin. pose proof kids_nc as K. rewrite Forall_forall in K. apply K. apply H2. exact Hin.
+        + intros c' n Hc Hin. pose proof (H2 n Hin) as Hin'.
+          destruct (kind_eqb (bk n) KMath) eqn:Ek.
+          { eapply post_bind; [apply kid_call; [exact Hin'|exact Ek|cbn [req_ctx]; rewrite Hc; exact Hs]|]. intros d Hd. apply post_ret. exact Hd. }
+          destruct (kind_eqb (bk n) KSpace) eqn:Ek2; apply post_ret; [|exact I].
+          cbn [fi_tight fi_doc]. rewrite (space_nolb n Hin' Ek2). reflexivity.
+      - intros body Hbody.
+        assert (Hoc : forall l, (forall x, In x l -> In x kids) ->
+                  post (match find (fun b => is_expr (bt b)) l with
+                        | Some o => call o (RExpr c)
+                        | None => bump ;;; ret (text [110; 111; 110; 101]) end) unb).
+        { intros l Hl. destruct (find (fun b => is_expr (bt b)) l) as [o|] eqn:Ef.
+          - apply find_some in Ef. apply kid_call; [apply Hl; exact (proj1 Ef)|reflexivity|exact Hs].
+          - apply post_bump_then. apply post_ret. apply unb_text. }
+        apply (post_bind _ _ unb); [apply Hoc; auto|]. intros op Hop.
+        apply (post_bind _ _ unb); [apply Hoc; intros x Hx; apply in_rev in Hx; exact Hx|]. intros cl Hcl.
+        apply post_ret. apply unb_enclose; [exact Hop|exact Hcl|].
+        apply unb_append; [|exact Hcs]. apply unb_nest. apply unb_append; assumption.
+    Qed.
+    Lemma equation_unb c : c_supp c = true -> post (convert_equation swidth cfg t kids c) unb.
+    Proof.
+      intros Hs. unfold convert_equation. cbn [c_supp with_mode]. rewrite Hs, Bool.orb_true_r.
+      apply (post_bind _ _ (fun l => clean l /\ l_fold l = Always)).
+      - eapply post_weaken.
+        + apply lst_process_unb; [repeat split; constructor|apply kids_nc|].
+          intros c' n Hc Hin. cbn [c_supp with_mode] in Hc. rewrite Hs in Hc.
+          destruct (kind_eqb (bk n) KMath && _) eqn:Ek; [|apply post_ret; exact I].
+          apply andb_prop in Ek. destruct Ek as [Ek _].
+          eapply post_bind; [apply kid_call; [exact Hin|exact Ek|exact Hc]|]. intros body Hb. apply post_ret.
+          match goal with |- unbreakable (if ?b then _ else _) = true => destruct b end; [apply unb_append; [exact Hb|reflexivity]|exact Hb].
+        + intros l [Hc Hf]. split; [exact Hc|]. rewrite Hf. reflexivity.
+      - intros l [Hc Hf]. apply post_ret. unfold lst_doc. apply lst_print_always_unb; assumption.
+    Qed.
+
     (* --- import --- *)
     Lemma In_firstn {A} n (l : list A) x : In x (firstn n l) -> In x l.
     Proof. revert l. induction n as [|n IH]; intros [|y l] H; cbn in *; try contradiction. destruct H; auto. Qed.
@@ -994,7 +1105,9 @@ Section Hereditary.
               | apply field_access_unb; [exact Et|exact Ek|exact Hs]
               | apply binary_unb; [exact Ek|exact Hs] | apply closure_unb; exact Hs | apply for_unb; exact Hs
               | apply set_rule_unb; exact Hs | apply func_call_unb; [exact E|exact Et|exact Ek|exact Hs]
-              | apply content_block_unb; exact Hs | apply strong_unb; exact Hs | apply emph_unb; exact Hs ].
+              | apply content_block_unb; exact Hs | apply strong_unb; exact Hs | apply emph_unb; exact Hs
+              | apply math_unb | apply attach_unb; exact Hs | apply frac_unb; exact Hs | apply delimited_unb; exact Hs
+              | apply equation_unb; exact Hs ].
     Qed.
     Lemma expr_unb self c : bt self = t -> bkids self = kids -> c_supp c = true -> post (convert_expr swidth cfg self c) unb.
     Proof.
@@ -1013,6 +1126,7 @@ Section Hereditary.
                 | apply parenthesized_unb; exact Hs
                 | apply expr_unb; [reflexivity|reflexivity|exact Hs] ].
       - apply markup_unb; exact Hs.
+      - apply math_unb.
       - apply content_block_unb; exact Hs.
       - unfold convert_embedded_expr. unfold bk. cbn [bt bkids].
         destruct (kind_eqb (kind_of t) KParenthesized);
